@@ -12,10 +12,10 @@ CHECKS = {
  "C02": ("exhaustive enumeration of structural heads x don't-care tail patterns + streamed sequences, landmark operands, rejected-operation-first histories and a harness-owned thread schedule; round-trip oracle encode(decode(b)) == consumed bytes, re-decode equality, guard-never-demotes; coverage-guided phase: atheris/libFuzzer (sc62015.pysc62015.instr instrumented) drives binary(7..8) x address through the same check_one round-trip verdicts",
          "Exploration: every structural head (complete in thorough, 1/8 stratified in quick) with three tails exercising ignored bits is decoded, re-encoded and compared byte for byte; the text callback's round-trip guard must accept whatever the info callback accepts.",
          "Domain = byte strings the info callback accepts; IL equality is structural equality of mock-LLIL reprs."),
- "C03": ("generated (encoding, state) pairs; reference operand-location model driven by the rendered token stream vs logged memory callbacks and register deltas",
+ "C03": ("generated (encoding, state) pairs; reference operand-location model driven by the rendered token stream vs logged memory callbacks and register deltas; `halted` grid (all (prefix, opcode) pairs with the core stopped at entry by an earlier executed HALT/OFF on the same emulator or a restored halted state) and `coexec` grid (a second generated emulator executes one instruction inside the k-th data read/write callback of the instruction under test), verdicts tagged by the dimension they depend on",
          "Exploration: decoder-accepted encodings x states in which all internal-memory addressing modes denote distinct addresses; the set of locations the lifted IL reads/writes must equal the set the rendered operands denote under the README addressing rules.",
          "Reference semantics written from sc62015/pysc62015/README.md; mnemonics it does not model are skipped and counted."),
- "C04": ("complete enumeration of 8-bit operand pairs x carry (2^17 per operation) + boundary/random wide operands; README-derived executable reference semantics + frame condition",
+ "C04": ("complete enumeration of 8-bit operand pairs x carry (2^17 per operation) + boundary/random wide operands; README-derived executable reference semantics + frame condition; every (prefix, opcode) followed by generated decoder-rejected tails (rejection classes enumerated from the decoder) and executed through CPUStepper.step / CPU.step_snapshot over sparse images with a generated fill value, same README reference, dependence tags by re-judging with NOP tail / Emulator.execute_instruction",
          "Exploration: 8-bit ALU value space enumerated completely in thorough; other encodings and widths by boundary grids and random sampling; destination, C/Z (only where documented), side effects and 'nothing else changes' compared with the reference.",
          "Where README, code comments and maintainers' tests disagree only the agreed part is asserted (DESIGN appendix B)."),
  "C05": ("grid enumeration of control-flow encodings x addresses x flags x operands (incl. landmark targets) + generated call/return programs on the Python and Rust executors with generated stack placement + long-lived-executor histories over rewritten code; static InstructionInfo vs executed PC, inverse-pair law",
@@ -27,7 +27,7 @@ CHECKS = {
  "C07": ("metamorphic testing: history-then-probe vs fresh core, N+M splits, twin emulators, per core; machine-level state transfer to a fresh machine (Rust and Python), converging histories, assembler history vs pristine process",
          "Exploration: generated execution histories (instructions, TEMP junk, call bookkeeping) followed by a probe instruction from a re-imposed architectural state must equal a fresh core's result; all split points of generated runs; twin-trace equality.",
          RUST_NOTE),
- "C08": ("Hypothesis stateful/sequence generation of register writes/reads/snapshot round trips against a reference register-file model; Python<->Rust differential",
+ "C08": ("Hypothesis stateful/sequence generation of register writes/reads/snapshot round trips against a reference register-file model; Python<->Rust differential; lifecycle op (reset of the register file in use, model back to fresh), snapshots built from named values and the snapshot dictionary compared name by name with reads (distinct non-zero TEMPs), complete whole/alias/whole write-order sweep over BA, I, F",
          "Exploration: generated write/read sequences with boundary-biased 32-bit values on both register files, compared with a reference model after every step; snapshot/apply round trips.",
          RUST_NOTE),
  "C09": ("round-trip testing disassemble -> assemble -> disassemble on generated accepted encodings, behavioural equivalence on a generated state, idempotence; listings on reused assemblers (also after rejected programs), linear sweeps, first-use start-up under a harness-owned schedule",
@@ -39,7 +39,7 @@ CHECKS = {
  "C11": ("Hypothesis stateful testing of load/store sequences under generated memory configurations against a reference memory model (both machine models, plus the Rust CPU-facing bus); port-sized (1-3 byte) overlays with 16/24-bit accesses at every alignment around and enclosing them; Rust ROM image through both public loaders (rom window / system image) with generated image lengths",
          "Exploration: generated configurations and 8/16/24-bit accesses at boundary-biased 32-bit addresses; every load and a set of sentinel addresses compared with the model after every operation.",
          RUST_NOTE + " Device windows are excluded from plain-memory rules."),
- "C12": ("scenario generation (ROM programs x event schedules) with a step-boundary monitor; depth-bounded complete enumeration of short event sequences",
+ "C12": ("scenario generation (ROM programs x event schedules) with a step-boundary monitor; depth-bounded complete enumeration of short event sequences; powered-off period length vs. remaining timer period as a generated dimension with a timer-progress witness in powered-off steps, and runs that start before the firmware has loaded S (delivery deferred at S < 5 must leave no trace: request taken once S is valid)",
          "Exploration: the harness owns the schedule, so interleavings of timer expiries, key events and IMR/ISR writes relative to instruction boundaries are generated inputs; gate, frame, no re-entry, RETI restore, not-lost, halt/off rules monitored per model.",
          RUST_NOTE + " 'Promptly' is checked as a bounded-response property with the bound taken from the step loops."),
  "C13": ("complete enumeration of small period pairs + sampled large periods x generated monotone cycle sequences; arithmetic reference + Python<->Rust differential; machine-level runs incl. bulk run(n)/step(n) vs single stepping; host life-cycle layer: the async device-task entry point (AsyncTimerKeyboardTask on an AsyncDriver, generated slices, host resets / period reprogramming / restores of earlier snapshots between slices) judged against per-cycle ticking, and real save_snapshot -> keep running -> load_snapshot roll-backs into the used PCE500Emulator with generated snapshot producers, reference rolled back with the snapshot",
@@ -51,7 +51,7 @@ CHECKS = {
  "C15": ("Hypothesis stateful testing of LCD read/write sequences against an HD61202 reference model on both implementations; complete enumeration of the VRAM-bit to pixel map; bystander operations interleaved into 1/3 of the histories (public observers incl. whole-machine snapshot save inside BUSY windows; refused snapshot restores with generated defects over live state) that must leave registers, VRAM and busy a function of the window accesses only",
          "Exploration: generated command/data sequences over all chip-select decodings; chip state and read values equal the model after every step in both implementations; all 8192 VRAM bits enumerated for the pixel map.",
          RUST_NOTE),
- "C16": ("snapshot-point enumeration: every step index of generated machine scenarios as save/load point, original-vs-restored step-for-step equality; cross-implementation loading",
+ "C16": ("snapshot-point enumeration: every step index of generated machine scenarios as save/load point, original-vs-restored step-for-step equality; cross-implementation loading; generated multi-page call graphs (near/far calls, JPF continuations, shared return tails, page-return pads) as scenario programs with every step inside the graph as snapshot point",
          "Fault-enumeration style exploration: for generated scenarios every step index is a snapshot point; the restored machine must match the uninterrupted one on registers, memory, LCD, keyboard, timers and interrupts for K further steps.",
          RUST_NOTE + " Wall-clock fields and perf counters are not compared."),
  "C17": ("complete comparison of all 256 opcode rows and every duplicated constant/table across copies, with behavioural probes for private constants; view segments as registered by init() for generated parent-file lengths, and the sub-register layout after generated alias / whole-register write histories (register files of both languages and executed flag / POP F programs)",
